@@ -98,7 +98,7 @@ static void run(const DetectorErrorModel &m, Rng &rng, Stats &st) {
             if (slurp(fo2) != so) out_x("replaying the recorded errors (format " + std::to_string(f) + ") does not reproduce the observables");
             if (slurp(fe3) != se) out_x("replaying the recorded errors (format " + std::to_string(f) + ") rewrites a different error file");
         } catch (const std::exception &e) {
-            if (!(ne == 0 && f == 1)) out_x(std::string("replay threw: ") + e.what());
+            out_x(std::string("replay threw: ") + e.what());   // (also for a model without errors: its b8 error file is empty, see D39)
         }
         fclose(fd2); fclose(fo2); fclose(fe3); fclose(fe2);
         st.hit("replays");
